@@ -199,14 +199,15 @@ func (t *Task) Yield() {
 // Block is a scheduling point at which the calling task CANNOT make progress
 // (it spins on a lock or a counter that another task must change): another
 // runnable task is picked if there is one — under every schedule mode, "seq"
-// included. If no other task is runnable nobody can ever change what the caller
-// waits for: that is a deadlock.
+// included.
+//
+// It returns false — without giving way — if no other task is runnable: whether
+// that is a deadlock is for the caller to decide (what the task waits for may be
+// held by a goroutine that is not a task, see GiveUp).
 //
 //go:norace
-func (t *Task) Block() {
+func (t *Task) Block() bool {
 	s := t.s
-	y := s.yieldNo
-	s.yieldNo++
 	n := len(s.tasks)
 	nr := 0
 	lowest := -1
@@ -219,11 +220,10 @@ func (t *Task) Block() {
 		}
 	}
 	if nr == 0 {
-		s.deadlock = true
-		s.back.Send()
-		t.resume.Recv() // never resumed
-		return
+		return false
 	}
+	y := s.yieldNo
+	s.yieldNo++
 	next := lowest
 	if s.sch.Mode == "hash" || s.sch.Mode == "explicit" {
 		k := int(H(s.sch.Seed^0x3c3c9999, y) % uint64(nr))
@@ -241,6 +241,19 @@ func (t *Task) Block() {
 	s.record(y, t.ID, next)
 	s.cur = next
 	s.tasks[next].resume.Send()
+	t.resume.Recv()
+	return true
+}
+
+// GiveUp declares a deadlock from inside a task: the task waits for something
+// no runnable task can provide. Run returns false; the task never resumes.
+//
+//go:norace
+func (t *Task) GiveUp() {
+	s := t.s
+	s.nblock++
+	s.deadlock = true
+	s.back.Send()
 	t.resume.Recv()
 }
 
